@@ -11,7 +11,8 @@ ID = "C02"
 HARNESSES = [dict(name="pppoe", pkg="./internal/pppoe/", test="TestVerifC02", timeout=900,
                   files=[("internal/pppoe/zz_verif_c02_test.go", "harness/C02/zz_verif_c02_test.go"),
                          ("pkg/allocator/zz_verif_c02_snap.go", "harness/C02/zz_verif_c02_alloc_snap.go"),
-                         ("plugins/dhcp4/local/zz_verif_c02_snap.go", "harness/C02/zz_verif_c02_dhcp4_snap.go")]),
+                         ("plugins/dhcp4/local/zz_verif_c02_snap.go", "harness/C02/zz_verif_c02_dhcp4_snap.go"),
+                         ("plugins/dhcp6/local/zz_verif_c02_snap.go", "harness/C02/zz_verif_c02_dhcp6_snap.go")]),
              # stage B: the real ipoe.Component driven with fakes (cases starting with "B ")
              dict(name="ipoe", pkg="./internal/ipoe/", test="TestVerifC02IPoE", timeout=900,
                   files=[("internal/ipoe/zz_verif_c02_ipoe_test.go", "harness/C02/zz_verif_c02_ipoe_test.go"),
@@ -172,7 +173,7 @@ def gen_one(rng):
             elif k < 0.55:
                 ops.append("IQ %d %s %s %s" % (sid, vrf, a4(), ov(pools4)))
             elif k < 0.72:
-                ops.append("IS %d %s %s %s %s %s" % (sid, vrf, a6(), apd(), ov(pools6), ov(poolsd)))
+                ops.append("%s %d %s %s %s %s %s" % (rng.choice(["IS", "IV", "IV"]), sid, vrf, a6(), apd(), ov(pools6), ov(poolsd)))
             elif k < 0.84:
                 ops.append("IR %d" % sid)
             elif k < 0.93:
@@ -403,7 +404,7 @@ def monitor(case, impl):
             vrf.setdefault(sid, o[2])
             live[sid] = True
             new["4"] = res[1].split(":")[1]
-        elif res[0] == "is" and res[1].startswith("adv:"):
+        elif res[0] in ("is", "iv") and (res[1].startswith("adv:") or res[1].startswith("rep:")):
             vrf.setdefault(sid, o[2])
             live[sid] = True
             _, a6, pd = res[1].split(":")
@@ -559,7 +560,7 @@ def signature(case, impl, models):
         return "dhcp4-unresolved-nil-pool-panic"
     if o[0] in ("ID", "IQ") and (" nil " in mres + " ") and (" offer:" in ires or " ack:" in ires) and il == ml:
         return "dhcp4-unresolved-answered-from-lease-table"
-    if o[0] in ("PA", "ID", "IQ", "IS") and ires != mres and il == ml:
+    if o[0] in ("PA", "ID", "IQ", "IS", "IV") and ires != mres and il == ml:
         # the code accepted an AAA-supplied address that lies in no pool and is already held in this VRF
         return "static-outside-pools-untracked"
     return "other:" + o[0]
@@ -601,7 +602,7 @@ def shrink(case):
 def nontrivial(case, impl):
     if case.startswith("B "):
         return sum(1 for s in segs(impl) if "offer:" in s or "ack:" in s) >= 2
-    told = sum(1 for s in segs(impl) if s.startswith(("pa ", "id offer", "iq ack", "is adv")) and "told=nil" not in s)
+    told = sum(1 for s in segs(impl) if s.startswith(("pa ", "id offer", "iq ack", "is adv", "iv rep")) and "told=nil" not in s)
     rel = sum(1 for s in segs(impl) if s.startswith(("pt", "ir", "it")))
     return told >= 2 and rel >= 1
 
@@ -621,7 +622,7 @@ def distribution(cases, impl):
         for s in segs(o)[1:]:
             r = s.split(" | ")[0].split()
             k = r[0] if r else "?"
-            if k in ("id", "iq", "is", "pi") and len(r) > 1:
+            if k in ("id", "iq", "is", "iv", "pi") and len(r) > 1:
                 k += ":" + r[1].split(":")[0]
             if k == "pa":
                 k += ":fallback" if "told=%d" % FALLBACK in s else (":none" if "told=nil" in s else ":addr")
